@@ -27,6 +27,8 @@ def run(tier, seed, res, lean):
     pbad = [b for o in outs for b in o[1][1]]
     for b in pbad[:6]:
         res.violations.append(Violation('c13-pipeline', b['msg'][:300], {'suite': 'S-IMPURE', **b}))
+    for b in [b for b in suite_impure.run_combined() if b['kind'] == 'c13'][:2]:
+        res.violations.append(Violation('c13-combined-by-value', b['msg'][:300], {'suite': 'S-IMPURE/combined', **b}))
     for b in ebad[:3]:
         if b.get('oracle') is not None and b['real'] != b['oracle']:
             res.violations.append(Violation('c13-detect', '_detect_impure differs from reachability of an ImpureEdge', {'suite': 'S-IMPURE', **b}))
